@@ -167,8 +167,8 @@ func c18(c *Ctx) {
 			}
 		}
 	}
-	if nAcc < 3 || nSend < 2 || nClose != 1 {
-		r.Unk("R-C18.1", "instance floor", "", fmt.Sprintf("closed accesses=%d (want >=3), sends=%d (want >=2), close(incoming)=%d (want 1)", nAcc, nSend, nClose))
+	if nAcc < 2 || nSend < 1 || nClose != 1 {
+		r.Unk("R-C18.1", "instance floor", "", fmt.Sprintf("closed accesses=%d (want >=2), sends=%d (want >=1), close(incoming)=%d (want 1)", nAcc, nSend, nClose))
 	}
 
 	// R-C18.4
@@ -287,6 +287,12 @@ func c18(c *Ctx) {
 
 // connOfRecv: v denotes the conn field of the received splitConn value held
 // in slot (an Alloc the received value was stored to) or extracted from it.
+// connBase: instruction consumes the connection denoted by isAlias: Close on
+// it, or a send of a splitConn carrying it.
+func connBase(in ssa.Instruction, isAlias func(ssa.Value) bool) bool {
+	return isCloseOf(in, isAlias) || sendsConn(in, isAlias)
+}
+
 func c18Ownership(c *Ctx) {
 	p, r := c.P, c.R
 	// Accept
@@ -302,7 +308,7 @@ func c18Ownership(c *Ctx) {
 		isAlias := func(v ssa.Value) bool {
 			v = core.Strip(v)
 			vp := core.PathOf(v)
-			if slot != nil && vp.Root == ssa.Value(slot) && vp.HasFields("conn") {
+			if slot != nil && vp.HasFields("conn") && (vp.Root == ssa.Value(slot) || (core.SingleStore(slot) != nil && vp.Root == core.Strip(core.SingleStore(slot)))) {
 				return true
 			}
 			// native.Conn where native = in.conn.(*protocol.Conn)
@@ -310,7 +316,7 @@ func c18Ownership(c *Ctx) {
 				if ex, ok := vp.Root.(*ssa.Extract); ok {
 					if ta, ok := ex.Tuple.(*ssa.TypeAssert); ok {
 						tp := core.PathOf(ta.X)
-						return slot != nil && tp.Root == ssa.Value(slot) && tp.HasFields("conn")
+						return slot != nil && tp.HasFields("conn") && (tp.Root == ssa.Value(slot) || (core.SingleStore(slot) != nil && tp.Root == core.Strip(core.SingleStore(slot))))
 					}
 				}
 			}
@@ -340,9 +346,23 @@ func c18Ownership(c *Ctx) {
 						return true
 					}
 					if ret, ok := in.(*ssa.Return); ok {
-						return isAlias(ret.Results[0])
+						if isAlias(ret.Results[0]) {
+							return true
+						}
+						// "return helper(in)": the helper must hand back the connection (or its embedded one) on every path
+						if vals, subst, h := helperResult(ret.Results[0]); h != nil && len(vals) > 0 {
+							all := true
+							core.WithSubst(subst, func() {
+								for _, rv := range vals {
+									if !isAlias(rv) {
+										all = false
+									}
+								}
+							})
+							return all
+						}
 					}
-					return false
+					return core.CallConsumes(p, in, isAlias, connBase, 1)
 				}})
 			// a Return that consumes is counted before the end check: handled since Consume runs first
 			sort.Strings(res.Leaks)
@@ -355,7 +375,7 @@ func c18Ownership(c *Ctx) {
 		connP := ssa.Value(I.Params[1])
 		isAlias := func(v ssa.Value) bool { return core.Strip(v) == connP }
 		res := core.Ownership(p, core.OwnSpec{Fn: I, Start: I.Blocks[0], Consume: func(in ssa.Instruction) bool {
-			return isCloseOf(in, isAlias) || sendsConn(in, isAlias)
+			return connBase(in, isAlias) || core.CallConsumes(p, in, isAlias, connBase, 1)
 		}})
 		r.Check(len(res.Leaks) == 0 && len(res.Doubles) == 0 && res.Ends > 0, "R-C18.5", "net.(*MultiplexingListener).IngressConn sends or closes", p.Pos(I.Pos()),
 			"every path sends the connection or closes it, once", "lost on: "+strings.Join(res.Leaks, "; ")+" / twice on: "+strings.Join(res.Doubles, "; "))
@@ -377,8 +397,10 @@ func c18Ownership(c *Ctx) {
 			isAlias := func(v ssa.Value) bool { return core.Strip(v) == conn }
 			header := acc.Block()
 			res := core.Ownership(p, core.OwnSpec{Fn: G, Start: succ,
-				Consume: func(in ssa.Instruction) bool { return isCloseOf(in, isAlias) || sendsConn(in, isAlias) },
-				End:     func(from, to *ssa.BasicBlock) bool { return to == header }})
+				Consume: func(in ssa.Instruction) bool {
+					return connBase(in, isAlias) || core.CallConsumes(p, in, isAlias, connBase, 1)
+				},
+				End: func(from, to *ssa.BasicBlock) bool { return to == header }})
 			r.Check(len(res.Leaks) == 0 && len(res.Doubles) == 0 && res.Ends > 0, "R-C18.5", core.FuncName(G)+" sends or closes", p.Pos(acc.Pos()),
 				"every accepted connection is sent or closed, once", "lost on: "+strings.Join(res.Leaks, "; ")+" / twice on: "+strings.Join(res.Doubles, "; "))
 		}
